@@ -3,7 +3,7 @@ CONSTANTS
   MaxLen = 3
   Windows <- TimelineWindows
   PeerLists <- QuickPeers
-  MaxExps = {0, 1, 2, 255}
+  MaxExps = {0, 2, 255}
   Nows = {0, 60000}
 INVARIANTS Named Chained MacsVerify ExpBounded Positions SignerChoice PeersOnlyKnown
 CHECK_DEADLOCK FALSE
